@@ -122,6 +122,12 @@ TLocate ==
   /\ Locate(st[Ev.obj], Ev.args, Ev.res)
   /\ UNCHANGED <<st, hl, memo>>
 
+TConflict ==
+  /\ IsEvent("Conflict")
+  /\ st[Ev.obj].live
+  /\ Conflict(st[Ev.obj], Ev.res)
+  /\ UNCHANGED <<st, hl, memo>>
+
 THullCreate ==
   /\ IsEvent("HullCreate")
   /\ st[Ev.obj].live
@@ -193,7 +199,7 @@ TraceNext ==
   \/ TFaulted
   \/ TReset \/ TConstruct \/ TInsert \/ TRemove \/ TFlip \/ TRepair \/ TVerdicts
   \/ TEmpty \/ TSetPolicy \/ TLocate \/ THullCreate \/ THullQuery \/ TQueries
-  \/ TClone \/ TSerDe \/ TCompare \/ TCanon
+  \/ TClone \/ TSerDe \/ TCompare \/ TCanon \/ TConflict
 
 TraceSpec == TraceInit /\ [][TraceNext]_vars
 
